@@ -69,9 +69,72 @@ def sequential (c : Cmd) (pre : List Action) (a1 a2 : Action) (firstIs1 : Bool) 
   pure { r1 := if firstIs1 then x else y, r2 := if firstIs1 then y else x, effs := o.effs, evs := o.events,
          done := o.done.getD false, live := (d.w.cmd d.cid).tasks.len }
 
+/-! corerace: several threads calling into one Core -/
+
+inductive CAct where
+  | ev (tag : Nat) (v : Int) | res (k : Nat) (v : Int) | view
+
+def parseCAct : Sexp → Option CAct
+  | .list [.atom "ev", t, v] => do pure (.ev (← t.nat?) (← v.int?))
+  | .list [.atom "res", k, v] => do pure (.res (← k.nat?) (← v.int?))
+  | .list [.atom "view"] => some .view
+  | _ => none
+
+def CAct.toAction : CAct → M.Hosts.Action
+  | .ev t v => .ev t v
+  | .res k v => .res k v
+  | .view => .poll
+
+open M.Rt M.Hosts in
+/-- one call performed alone, without the probe: result class, returned effects -/
+def performCore (h : CoreHost) : CAct → Option (String × List EffView × CoreHost)
+  | .ev t v => do
+      let (effs, k) ← processEvent ⟨t, v⟩ h.k
+      pure ("ok", effs.map (viewOf ·), { h with k := k })
+  | .view => some ("-", [], h)
+  | .res kk v =>
+      match shellResolve h.reqs kk v h.k.w with
+      | none => some ("noreq", [], h)
+      | some (reqs, res, w) =>
+        if res == .gone then some ("noreq", [], h) else
+        let h := { h with reqs := reqs, k := { h.k with w := w } }
+        if res == .ok then
+          match process h.k with
+          | none => none
+          | some (effs, k) => some ("ok", effs.map (viewOf ·), { h with k := k })
+        else some (showRes res, [], h)
+
+def permutations {α : Type} : List α → List (List α)
+  | [] => [[]]
+  | x :: xs => (permutations xs).flatMap fun p => (List.range (p.length + 1)).map fun i => p.take i ++ [x] ++ p.drop i
+
+open M.Rt M.Hosts in
+def coreSequential (prog : Prog) (pre : List CAct) (acts : List CAct) (order : List Nat) : Option String := do
+  let (_, h) ← runCore prog true (pre.map CAct.toAction)
+  let rec go (h : CoreHost) (order : List Nat) (acc : List (Nat × String × List EffView)) :
+      Option (CoreHost × List (Nat × String × List EffView)) :=
+    match order with
+    | [] => some (h, acc)
+    | i :: rest =>
+      match acts[i]? with
+      | none => none
+      | some a =>
+        match performCore h a with
+        | none => none
+        | some (r, effs, h) => go h rest ((i, r, effs) :: acc)
+  let (h, res) ← go h order []
+  let (peffs, k) ← processEvent ⟨probeTag, 0⟩ h.k
+  let results := (List.range acts.length).map fun i => ((res.find? (·.1 == i)).map (·.2.1)).getD "?"
+  let union := sortBy keyLe (res.flatMap (·.2.2))
+  let probe := sortBy keyLe (peffs.map (viewOf ·))
+  let log := sortBy Driver.Rt.evLe (k.log.filter (·.tag != probeTag))
+  let showE (es : List EffView) := String.intercalate "," (es.map fun e => s!"{e.n}:{e.v}:{e.kind}")
+  pure (s!"R[{String.intercalate "," results}] E\{{showE union}} P\{{showE probe}} L\{{Driver.Rt.showEvs log}} " ++
+    statsCore k)
+
 def isCase (line : String) : Bool :=
   match Sexp.parse line with
-  | some (.list (.atom h :: _)) => h == "evict" || h == "race"
+  | some (.list (.atom h :: _)) => h == "evict" || h == "race" || h == "corerace"
   | _ => false
 
 def model (line : String) : String :=
@@ -81,6 +144,7 @@ def model (line : String) : String :=
     | some n, some order => modelEvict n order
     | _, _ => "bad-case"
   | some (.list (.atom "race" :: _)) => "unmodelled-interleaving"
+  | some (.list (.atom "corerace" :: _)) => "unmodelled-interleaving"
   | _ => "bad-case"
 
 def oracle (input : String) : String :=
@@ -93,6 +157,15 @@ def oracle (input : String) : String :=
       if impl.startsWith "evicted 1" && n.nat? != some 0 then "reject eviction-race" else
       if impl.startsWith "evicted 0 events 1" then "ok" else
       if impl.startsWith "evicted 1" then "ok" else "reject unparseable-observation"
+    | some (.list [.atom "corerace", .list prog, .list pre, .list acts, _]) =>
+      if impl.startsWith "panic" then "reject panicked" else
+      let impl := if impl.endsWith " STUCK" then (impl.dropEnd 6).toString else impl
+      if impl.endsWith "CONCURRENT-UPDATE" then "reject concurrent-update" else
+      match Driver.Rt.parseProg prog, pre.mapM parseCAct, acts.mapM parseCAct with
+      | some prog, some pre, some acts =>
+        let orders := permutations (List.range acts.length)
+        if orders.any (fun o => coreSequential prog pre acts o == some impl) then "ok" else "reject not-linearizable"
+      | _, _, _ => "bad-case"
     | some (.list [.atom "race", c, .list pre, a1, a2, _]) =>
       if impl.endsWith "STUCK" then "reject schedule-stuck" else
       if impl.startsWith "panic" then "reject panicked" else
